@@ -488,6 +488,9 @@ def replay(path):
     res = mod.execute(data["case"])
     want = data.get("key")
     hits = [s for s in res.get("violations", ()) if want is None or sig_key(s) == want]
+    if not hits:  # signatures gain fields over time: fall back to the stored oracle name
+        oracle = (data.get("signature") or {}).get("oracle")
+        hits = [s for s in res.get("violations", ()) if s.get("oracle") == oracle]
     for s in res.get("violations", ()):
         print("  violation:", json.dumps(s, sort_keys=True))
     print("digest=%s" % res.get("digest"))
